@@ -134,6 +134,21 @@ static void run_combo(const Pub *p)
             distinct_add_u64(fnv1a(&alt, sizeof(alt), (uint64_t)combos));
             if (tr_hash != h0 || tr_len != l0) { diverge(p, &base, &alt, f[fi].what, pos, v); return; }
         }
+        if (!strcmp(f[fi].what, "counter") && f[fi].len >= 1) {
+            /* counter arithmetic is where data-dependent carries and borrows hide: every value of the
+             * last byte, under all-00 / all-FF neighbours (carry and borrow chains of every length
+             * start from these; the lanes hold c+4..c+15 when a re-key winds them back) */
+            int hi, v2;
+            for (hi = 0; hi < 4; ++hi) for (v2 = 0; v2 < 256; ++v2) {
+                size_t L = f[fi].len, k;
+                alt = base;
+                for (k = 0; k + 1 < L; ++k) alt.counter[k] = (hi & 1) ? 0xFF : 0x00;
+                if (L >= 2 && (hi & 2)) alt.counter[0] = 0x3C;
+                alt.counter[L - 1] = (uint8_t)v2;
+                run_program(p, &alt); ++traces; ++g_cnt.evaluations;
+                if (tr_hash != h0 || tr_len != l0) { diverge(p, &base, &alt, "counter low byte (neighbours all-00/all-FF)", L - 1, (unsigned)v2); return; }
+            }
+        }
         if (!strcmp(f[fi].what, "counter")) {       /* carry chains: 00..00 FF^k, FF..FF, FF..FE */
             size_t k;
             for (k = 0; k <= f[fi].len; ++k) {
